@@ -717,7 +717,9 @@ impl RecvCase {
                         self.bad(out, viol, "C08", "wf_scope", format!("request {}-{} outside scope in {}", a, b, pdu_repr(p)));
                     }
                     if let Some(sz) = self.truth.eof_size {
-                        if b > sz {
+                        // (file data beyond the announced size is outside C08's quantifier - hypothesis EvOk of C08_wellformed:
+                        // a gap in front of such data is requested before the receiver can know where the file ends)
+                        if b > sz && !self.truth.delivered.iter().any(|r| r.1 > sz) {
                             self.bad(out, viol, "C08", "wf_beyond_file", format!("request {}-{} beyond the file size {} in {}", a, b, sz, pdu_repr(p)));
                         }
                     }
@@ -1379,7 +1381,24 @@ fn gen_recv_script(rng: &mut Rng, cfg: &RecvCfg, file: &[u8], closure: bool, ck:
     let prompt_nak = mk(Direction::ToReceiver, mode, crc, fss, PDUPayload::Directive(Operations::Prompt(PromptPDU { nak_or_keep_alive: NakOrKeepAlive::Nak })));
     let prompt_ka = mk(Direction::ToReceiver, mode, crc, fss, PDUPayload::Directive(Operations::Prompt(PromptPDU { nak_or_keep_alive: NakOrKeepAlive::KeepAlive })));
     let eof_cancel = eof_pdu(file, ck, Condition::CancelReceived, mode, crc, fss);
-    let all: Vec<String> = base.into_iter().chain(tail).collect();
+    let mut all: Vec<String> = base.into_iter().chain(tail).collect();
+    // stray file data beyond the announced file size (a confused or replaying sender): before the EOF it is a
+    // FilesizeError at the EOF, after the EOF nothing checks it - the bytes are held, the progress counter
+    // counts them, and the account of what is missing inside the file must not be disturbed by them
+    if rng.chance(1, 5) && transfer {
+        for _ in 0..1 + rng.below(2) {
+            let a = file.len() + rng.below(2 * seg as u64 + 1) as usize;
+            let l = 1 + rng.below(2 * seg as u64) as usize;
+            let bytes = rng.bytes(l);
+            let pdu = format!("recv pdu {}", hexpdu(&fd(a as u64, &bytes, mode, crc, fss)));
+            if rng.chance(1, 2) {
+                all.push(pdu);
+            } else {
+                let at = rng.below(all.len() as u64 + 1) as usize;
+                all.insert(at, pdu);
+            }
+        }
+    }
     let user_at = if rng.chance(1, 3) { Some(rng.below(all.len() as u64 + 1) as usize) } else { None };
     let user_kind = rng.below(4);
     for (i, ev) in all.iter().enumerate() {
